@@ -286,6 +286,8 @@ func (x *Exec) invoke(st *State, call *ssa.Call, k retK) {
 	case rsort == "Err" && name == "Unwrap":
 		t := x.term(st, recv, false)
 		st.check(x.key+"/safety/nil", fmt.Sprintf("((_ is EJoin) %s)", t), "Unwrap() []error receiver at "+x.pos(call.Pos()))
+		// library fact about package errors: only errors.Join constructs the unexported joinError, from a non-empty list without nils
+		st.assume(fmt.Sprintf("(and (> (Seq_Err.len (EJoin.list %s)) 0) (forall ((j Int)) (! (=> (and (<= 0 j) (< j (Seq_Err.len (EJoin.list %s)))) (not (= (Seq_Err.nth (EJoin.list %s) j) ErrNil))) :pattern ((Seq_Err.nth (EJoin.list %s) j)))))", t, t, t, t))
 		k(st, []Val{{S: "Seq_Err", T: fmt.Sprintf("(EJoin.list %s)", t)}})
 	default:
 		if lm := libModels["invoke:"+name]; lm != nil {
@@ -555,6 +557,10 @@ func (x *Exec) rangeInit(st *State, in *ssa.Range, set func(ssa.Value, Val)) {
 	}
 	st.objs[o.ID] = o
 	set(in, Val{A: &Addr{ObjID: o.ID, T: in.X.Type()}, S: "@iter"})
+	if _, isStr := in.X.Type().Underlying().(*types.Basic); isStr {
+		// `nextpos`: the byte offset at which the next rune of a string iteration is decoded
+		st.top().vars["nextpos"] = Val{S: "@addr", A: &Addr{ObjID: o.ID, Path: []int{1}}}
+	}
 	if _, isMap := in.X.Type().Underlying().(*types.Map); isMap {
 		// `seen`: the ghost set of keys the iteration has produced so far
 		st.top().vars["seen"] = Val{S: "@addr", A: &Addr{ObjID: o.ID, Path: []int{1}}}
